@@ -78,5 +78,13 @@ ZOO = {
         _e("tgt_b", ["tgt"], attrs=[("tb", T("STRING"), True, None)],
            inverse=[{"name": "via_b", "agg": {"agg": "SET", "lo": 0, "hi": None}, "entity": "owner", "attr": "refs"}]),
         _e("tgt_ab", ["tgt_a", "tgt_b"], attrs=[("tab", T("REAL"), True, None)]),
+        # an attribute re-declared at two levels of one chain (value type narrowed, OPTIONAL tightened at the last level), and an
+        # inverse over the re-declared reference
+        _e("rtgt", inverse=[{"name": "users", "agg": {"agg": "SET", "lo": 0, "hi": None}, "entity": "rd0", "attr": "ref"}]),
+        _e("rtgt1", ["rtgt"], attrs=[("k1", T("INTEGER"), True, None)]),
+        _e("rtgt2", ["rtgt1"]),
+        _e("rd0", attrs=[("a", T("NUMBER"), True, None), ("ref", named("rtgt"), False, None), ("z0", T("STRING"), True, None)]),
+        _e("rd1", ["rd0"], attrs=[("a", T("REAL"), True, "rd0"), ("ref", named("rtgt1"), False, "rd0"), ("z1", T("INTEGER"), False, None)]),
+        _e("rd2", ["rd1"], attrs=[("a", T("REAL"), False, "rd1"), ("ref", named("rtgt2"), False, "rd1"), ("z2", named("colour"), False, None)]),
     ],
 }
